@@ -184,7 +184,10 @@ def eval_case(model, case):
         return {"detail": None, "tag": tag, "nontrivial": True, "stats": stats}
     if st != "ok":
         return {"detail": {"kind": "rejected", "impl": impl}, "tag": tag, "nontrivial": True, "stats": stats}
-    _, vals, undef, pairs, diagv = res
+    _, vals, undef, pairs, diagv, sqb = res
+    if sqb != 1:    # hypothesis of C14_esp_transform_is_backtransformed_partial, evaluated by the model on this case
+        raise RuntimeError("the model's integral array is not K x K x N for this basis")
+    stats["shape-hypothesis-checked"] = 1
     impl = np.asarray(impl)
     if impl.shape != (len(pts),):
         return {"detail": {"kind": "shape", "impl_shape": list(impl.shape), "model_shape": [len(pts)]}, "tag": tag}
